@@ -1,4 +1,5 @@
 import MsqProofs.Lemmas.TDml4
+import MsqProofs.Lemmas.TDml6
 import MsqProofs.Props.C10
 import MsqModel.Driver.ShowVal
 /-!
@@ -31,7 +32,12 @@ optional word `TABLE` present or not whatever the dialect.
 * `C03.tscript` : a list of fragment statements separated by `;` (with or without a final `;`) through `pStatements`
   (= `parse_statements` on tokens: `statementsLoop`, entry fuel) — by `C10.script_concat_entry`; `tscript_loop` : the loop with explicit fuels;
 * slot corollaries `C03.insert_slots`, `update_assignments`, `delete_filter`; `C03.rendering_determines_statement`;
-* `C01.dml_round_trip_tokens` : print tokens → parse → the same tree → the same tokens.
+* `C01.dml_round_trip_tokens` : print tokens → parse → the same tree → the same tokens;
+* `C08.dml_accounted` : the rendering reads as grammar words (`TDM.KWL`: the words and operator spellings the printers emit) interleaved
+  with EXACTLY the strings stored in the tree (`TDM.leaves s`, defined on the tree, in print order) — relation `TDM.Acc`; hence
+  `C08.dml_parse_accounted` (what `pStatement` returns from the rendering stores exactly the non-grammar tokens), `dml_tokens_stored`,
+  `dml_stored_tokens`, `dml_none_lost` (the unfolded forms: every token is a grammar word or spells a stored string; every stored string is
+  spelled by a token; the non-grammar tokens are matched one-to-one).
 -/
 set_option linter.unusedVariables false
 set_option linter.unusedSimpArgs false
@@ -200,8 +206,37 @@ theorem dml_round_trip_tokens (d : Gen.D) (s : Stmt) (hs : FragStmt d s = true) 
   exact ⟨by rw [← hp.1], hp.2.symm⟩
 end C01
 
+namespace C08
+/-- **accounting on the statement fragment.**  The token rendering of a fragment statement is grammar words interleaved with exactly the
+strings stored in the tree (`leaves s`: WITH names, target table, partition items, column list, rows, assignments, filter, ORDER BY keys,
+LIMIT numbers, and every name and literal of the nested expressions and queries), in order; a bracket group is accounted for by its
+children.  Nothing of the text is lost, nothing stored is invented, nothing is stored twice -/
+theorem dml_accounted (d : Gen.D) (s : Stmt) (hs : FragStmt d s = true) : Acc (toksStmt d s) (leaves s) :=
+  stmt_accounted (d == .HIVE) s hs
+/-- the same about the PARSER: whatever `pStatement` returns from the rendering (it is `s`, by `C03.tstatement`) stores exactly the
+non-grammar tokens of the rendering -/
+theorem dml_parse_accounted (d : Gen.D) (s : Stmt) (hs : FragStmt d s = true) (rest : List Tok) (hr : stopsStmt d rest = true)
+    (fuel : Nat) (hfuel : 20 * sizeL (toksStmt d s) + 16 ≤ fuel) :
+    ∃ p, pStatement d fuel (toksStmt d s ++ rest) = .ok (p, rest) ∧ Acc (toksStmt d s) (leaves p) :=
+  ⟨s, C03.tstatement d s hs rest hr fuel hfuel, dml_accounted d s hs⟩
+/-- every token of the rendering (bracket groups opened) is a grammar word or spells a stored string -/
+theorem dml_tokens_stored (d : Gen.D) (s : Stmt) (hs : FragStmt d s = true) :
+    ∀ t ∈ flatL (toksStmt d s), isKw t = true ∨ unifyName t.src ∈ leaves s ∨ t.src ∈ leaves s ∨
+      ∃ sch n, splitName t.src = .ok (sch, n) ∧ n ∈ leaves s :=
+  (dml_accounted d s hs).tokens_stored
+/-- every stored string is spelled by a token of the rendering -/
+theorem dml_stored_tokens (d : Gen.D) (s : Stmt) (hs : FragStmt d s = true) :
+    ∀ x ∈ leaves s, ∃ t ∈ flatL (toksStmt d s), x = unifyName t.src ∨ x = t.src ∨
+      ∃ sch n, splitName t.src = .ok (sch, n) ∧ (x = n ∨ sch = some x) :=
+  (dml_accounted d s hs).stored_tokens
+/-- the tokens that are no grammar words are matched one-to-one by stored strings -/
+theorem dml_none_lost (d : Gen.D) (s : Stmt) (hs : FragStmt d s = true) :
+    ((flatL (toksStmt d s)).filter (fun t => !isKw t)).length ≤ (leaves s).length :=
+  (dml_accounted d s hs).count
+end C08
+
 /-! ### non-vacuity (compiled evaluation) -/
-namespace C03
+namespace C03.Dml
 /-- the token-level printer agrees with the lexer on the printer's text, and the statement is in the fragment -/
 def agreesD (d : Gen.D) (s : Stmt) : Bool :=
   match PR.prStmt d s with
@@ -271,6 +306,10 @@ def pk : Stmt := .insertSelect (ih "INSERT_OVERWRITE" (tn "t") (some [cmp "EQ" (
 #guard (match PR.prStmt .HIVE pk with
   | .ok x => (match pStatement .HIVE 2000 (lexed x) with | .error .parse => true | _ => false) | .error _ => false)
 
+-- the stored strings of concrete statements, in print order
+#guard leaves i1 == ["t", "a", "t", "b", "1", "'x'", "a", "2", "p", "q", "1", "1", "f", "1", "2"] &&
+  leaves u2 == ["x", "b", "u", "t", "a", "1", "a", "b"] && leaves d2 == ["s", "t"] &&
+  leaves d1 == ["t", "a", "1", "b", "b", "u", "a", "5", "10"]
 -- instances of the theorems (hypotheses decided by the kernel, conclusions the theorems')
 /-- `DELETE FROM t WHERE a = 1` (kernel-checked instances avoid `String.splitOn` / `toString`: no qualified table, no LIMIT) -/
 def d0 : Stmt := .delete (tn "t") (some (cmp "EQ" (col "a") (lit "1"))) none none
@@ -283,4 +322,4 @@ set_option maxRecDepth 100000 in
 example : pStatements .HIVE (fuelFor (C10.script semiTok ([d0, u0, i5].map (toksStmt .HIVE)) true)) (C10.script semiTok ([d0, u0, i5].map (toksStmt .HIVE)) true) =
     .ok [d0, u0, i5] :=
   tscript .HIVE [d0, u0, i5] (by decide) true
-end C03
+end C03.Dml
